@@ -254,6 +254,12 @@ func H_STD() {
 		hb, err := hex.DecodeString("0aFF")
 		vx.Assert("STD", err == nil && len(hb) == 2 && hb[1] == 255, "hex decode")
 		vx.Assert("STD", base64.StdEncoding.EncodeToString([]byte("hi!")) == "aGkh", "base64 encode")
+		hb2 := make([]byte, hex.EncodedLen(2))
+		hn := hex.Encode(hb2, []byte{1, 255})
+		vx.Assert("STD", hn == 4 && string(hb2) == "01ff" && string(hex.AppendEncode([]byte("x"), []byte{16})) == "x10", "hex.Encode / AppendEncode")
+		bb2 := make([]byte, base64.StdEncoding.EncodedLen(3))
+		base64.StdEncoding.Encode(bb2, []byte("hi!"))
+		vx.Assert("STD", string(bb2) == "aGkh", "base64 Encode into a buffer")
 		bb, err := base64.StdEncoding.DecodeString("aGkh")
 		vx.Assert("STD", err == nil && string(bb) == "hi!", "base64 decode")
 		buf := make([]byte, 8)
